@@ -22,15 +22,13 @@ var hints2 = []string{"", "MERGE_JOIN(t,u)", "HASH_JOIN(t,u)", "LOOKUP_JOIN(t,u)
 
 var quickTier bool
 
-var costers = map[*eng.Engine]*qrun.ChoiceCoster{}
-
 func coster(l *qrun.Loaded) *qrun.ChoiceCoster {
-	if c, ok := costers[l.Eng]; ok {
+	if c, ok := l.Aux.(*qrun.ChoiceCoster); ok {
 		return c
 	}
 	c := qrun.NewChoiceCoster()
 	l.Eng.E.Analyzer.Coster = c
-	costers[l.Eng] = c
+	l.Aux = c
 	return c
 }
 
